@@ -41,3 +41,34 @@ pub use config::*;
 pub use types::*;
 
 pub(crate) use op::SyncOp;
+
+/// Verification hook: named failpoints between the internal steps of server backends. Compiled
+/// only with `--cfg gothenburgbitfactory_taskchampion_verif`.
+#[cfg(gothenburgbitfactory_taskchampion_verif)]
+pub mod verif_failpoint {
+    use crate::errors::{Error, Result};
+    use std::sync::Mutex;
+
+    type Handler = Box<dyn FnMut(&'static str) -> bool + Send>;
+    static HANDLER: Mutex<Option<Handler>> = Mutex::new(None);
+
+    /// Install (or remove) the handler; it returns true to make the failpoint fail.
+    pub fn set_handler(h: Option<Handler>) {
+        *HANDLER.lock().unwrap() = h;
+    }
+
+    #[allow(dead_code)]
+    pub(crate) fn hit(name: &'static str) -> Result<()> {
+        let fail = HANDLER
+            .lock()
+            .unwrap()
+            .as_mut()
+            .map(|h| h(name))
+            .unwrap_or(false);
+        if fail {
+            Err(Error::Server(format!("verif: stopped at failpoint {name}")))
+        } else {
+            Ok(())
+        }
+    }
+}
